@@ -136,6 +136,22 @@ Lemma eval_S f e s :
       | TInt bits sg, VInt x, VInt y => ret (VInt (shift_val lft bits sg x y)) s2
       | _, _, _ => Fail Stuck
       end
+  | EDec k t a =>
+      do va, s1 <- eval f a s;
+      match va with
+      | VInt z =>
+          match k with
+          | ToDec => if in_range 168 true (z * DEC) then ret (VInt (z * DEC)) s1 else Fail Revert
+          | FromDec =>
+              match t with
+              | TInt bits sg => if in_range bits sg (Z.quot z DEC) then ret (VInt (Z.quot z DEC)) s1 else Fail Revert
+              | _ => Fail Stuck
+              end
+          | Floor => ret (VInt (z / DEC)) s1
+          | Ceil => ret (VInt (- ((- z) / DEC))) s1
+          end
+      | _ => Fail Stuck
+      end
   | EConcat a b =>
       do va, s1 <- eval f a s;
       do vb, s2 <- eval f b s1;
